@@ -33,7 +33,7 @@ RUNS = {
     "C16": {"quick": 480, "thorough": 30000},
     "C17": {"quick": 480, "thorough": 30000},
     "C19": {"quick": 480, "thorough": 30000},
-    "C18": {"quick": 464, "thorough": 9280},
+    "C18": {"quick": 472, "thorough": 9440},
     "C20": {"quick": 160, "thorough": 9600},
     "C05": {"quick": 480, "thorough": 30000},
     "C06": {"quick": 480, "thorough": 30000},
